@@ -194,3 +194,156 @@ class TruncationMonitor(Monitor):
                                                                         'err_over_scale': float(np.max(err / s))}); return
                 self.ctx.noise['truncation'] = max(self.ctx.noise.get('truncation', 0.0), float(np.max(err / s)))
         self.ctx.ok('truncation:' + ev.name, ('trunc', ev.name, D, tuple(c.shape[2:] for (_, _, c) in ua)))
+
+
+# ------------------------------------------------------------------------------------------------------
+# C10: zeroth coefficient, shapes and comparisons follow NumPy
+# ------------------------------------------------------------------------------------------------------
+
+def _np_table():
+    sp = scipy.special
+    T = {
+        '__add__': operator.add, '__radd__': lambda a, b: b + a, '__sub__': operator.sub, '__rsub__': lambda a, b: b - a,
+        '__mul__': operator.mul, '__rmul__': lambda a, b: b * a, '__truediv__': operator.truediv, '__rtruediv__': lambda a, b: b / a,
+        '__div__': operator.truediv, '__rdiv__': lambda a, b: b / a,
+        '__pow__': operator.pow, '__rpow__': lambda a, b: b ** a, '__neg__': operator.neg, '__abs__': np.abs, 'abs': np.abs, 'fabs': np.abs,
+        'add': operator.add, 'sub': operator.sub, 'mul': operator.mul, 'div': operator.truediv, 'multiply': operator.mul, 'neg': operator.neg,
+        'botched_clip': lambda lo, hi, x: np.clip(x, lo, hi),
+        'polygamma': sp.polygamma, 'hyperu': sp.hyperu,
+        'sum': lambda x, axis=None, dtype=None, out=None: np.sum(x, axis=axis), 'prod': np.prod,
+        'dot': np.dot, 'outer': np.outer, 'inv': np.linalg.inv, 'solve': np.linalg.solve, 'det': np.linalg.det,
+        'logdet': lambda x: np.linalg.slogdet(x)[1], 'trace': np.trace,
+        'diag': lambda v, k=0, out=None: np.diag(v, k), 'triu': lambda x, k=0, out=None: np.triu(x, k), 'tril': lambda x, k=0, out=None: np.tril(x, k),
+        'reshape': lambda x, s, order='C': np.reshape(x, s), 'transpose': lambda x, axes=None: np.transpose(x, axes),
+        'tile': lambda x, reps, out=None: np.tile(x, reps), 'real': np.real, 'imag': np.imag, 'conjugate': np.conjugate, 'conj': np.conjugate,
+        'fft': lambda a, n=None, axis=-1, out=None: np.fft.fft(a, n=n, axis=axis), 'ifft': lambda a, n=None, axis=-1, out=None: np.fft.ifft(a, n=n, axis=axis),
+        'qr': lambda A, **k: tuple(np.linalg.qr(A)), 'qr_full': lambda A, **k: tuple(scipy.linalg.qr(A)), 'cholesky': lambda A, **k: np.linalg.cholesky(A),
+        'lu': lambda A, **k: tuple(scipy.linalg.lu(A)),
+        'max': lambda a, axis=None, out=None: np.max(a), 'argmax': lambda a, axis=None: np.argmax(a),
+        '__getitem__': lambda x, sl: x[sl], 'symvec': lambda A, UPLO='F': algopy.utils.symvec(A, UPLO), 'vecsym': algopy.utils.vecsym,
+        'minimum': np.minimum, 'maximum': np.maximum,
+        'erf': sp.erf, 'erfi': sp.erfi, 'dawsn': sp.dawsn, 'logit': sp.logit, 'expit': sp.expit, 'gammaln': sp.gammaln, 'psi': sp.psi,
+    }
+    for nm in ('exp', 'expm1', 'log', 'log1p', 'sqrt', 'sin', 'cos', 'tan', 'arcsin', 'arccos', 'arctan', 'sinh', 'cosh', 'tanh', 'sign',
+               'absolute', 'square', 'negative', 'reciprocal'):
+        T[nm] = getattr(np, nm)
+    return T
+
+
+NP_TABLE = _np_table()
+CMP = {'__lt__': operator.lt, '__le__': operator.le, '__gt__': operator.gt, '__ge__': operator.ge, '__eq__': operator.eq}
+PARTIAL = {'eigh': 'eigh', 'eig': 'eig', 'svd': 'svd'}      # factor matrices fixed only up to convention: compare the invariant part
+
+
+class ZerothMonitor(Monitor):
+    """C10: result.data[0,p] equals NumPy/SciPy on the zeroth coefficients of direction p; shape/len/size/ndim are NumPy's;
+    comparison operators return numpy.all(op(x_0, y_0))"""
+    TOL = 1e-12
+
+    def on_return(self, ev, res):
+        if ev.depth > self.max_depth or ev.kind == 'tracer' or ev.name.startswith('pb_'):
+            return
+        name = ev.name
+        ua = ev.utpm_args()
+        if not ua:
+            return
+        if name in CMP:
+            return self._compare(ev, res)
+        if name not in NP_TABLE and name not in PARTIAL:
+            self.ctx.skip('no-numpy-counterpart:' + name); return
+        if not all(np.all(np.isfinite(c)) for (_, _, c) in ev.snaps):
+            self.ctx.skip('nonfinite-input'); return
+        Ps = {c.shape[1] for (_, _, c) in ua}
+        if len(Ps) != 1:
+            self.ctx.skip('mixed-P'); return
+        P = Ps.pop()
+        outs = _datas(res)
+        if outs is None:
+            if name == 'argmax':
+                outs = [np.asarray(res).reshape((1, P))]
+            else:
+                self.ctx.skip('no-utpm-result:' + name); return
+        single = isinstance(res, UTPM) or name == 'argmax'
+        for p in range(P):
+            snap = {pth: (o, c) for (pth, o, c) in ev.snaps}
+
+            def z(path, a):
+                if path in snap:
+                    o, c = snap[path]
+                    return c[0, p] if isinstance(o, UTPM) else c
+                return a
+            args = [z(('a', i), a) for i, a in enumerate(ev.args)]
+            kwargs = {k: z(('k', k), v) for k, v in ev.kwargs.items() if k not in ('out', 'epsilon', 'work')}
+            try:
+                with np.errstate(all='ignore'):
+                    if name in PARTIAL:
+                        ref = self._partial_ref(name, args)
+                    else:
+                        ref = NP_TABLE[name](*args, **kwargs)
+            except Exception as e:
+                self.ctx.skip('numpy-rejects:' + name); return
+            refs = [np.asarray(ref)] if not isinstance(ref, tuple) else [np.asarray(r) for r in ref]
+            gots = [o[0, p] for o in outs]
+            if name in PARTIAL:
+                gots = self._partial_got(name, gots)
+            if len(gots) != len(refs):
+                self.ctx.violation('zeroth:%s:number-of-outputs' % name, {'call': name, 'got': len(gots), 'want': len(refs)}); return
+            for k, (g, r) in enumerate(zip(gots, refs)):
+                g = np.asarray(g)
+                if g.shape != r.shape:
+                    self.ctx.violation('zeroth:%s:shape' % name, {'call': name, 'output': k, 'got': g.shape, 'want': r.shape, 'direction': p}); return
+                if not np.all(np.isfinite(r.astype(complex))):
+                    continue
+                sc = np.max(np.abs(r)) + 1e-300 if r.size else 1.0
+                if r.size and not np.max(np.abs(g - r)) <= self.TOL * max(sc, 1e-3):
+                    self.ctx.violation('zeroth:%s:value' % name, {'call': name, 'output': k, 'direction': p, 'P': P, 'err': float(np.max(np.abs(g - r)) / sc)}); return
+            if single and name not in PARTIAL and name != 'argmax':
+                r = refs[0]
+                bad = None
+                if res.shape != r.shape:
+                    bad = ('shape', res.shape, r.shape)
+                elif res.ndim != r.ndim:
+                    bad = ('ndim', res.ndim, r.ndim)
+                elif res.size != r.size:
+                    bad = ('size', res.size, r.size)
+                elif r.ndim >= 1 and len(res) != len(r):
+                    bad = ('len', len(res), len(r))
+                if bad:
+                    self.ctx.violation('zeroth:%s:%s' % (name, bad[0]), {'call': name, 'got': bad[1], 'want': bad[2]}); return
+        self.ctx.ok('zeroth:' + name, ('z', name, P, tuple(c.shape[2:] for (_, _, c) in ua)))
+
+    @staticmethod
+    def _partial_ref(name, args):
+        A0 = np.asarray(args[0])
+        if name == 'eigh':
+            w, V = np.linalg.eigh(A0)
+            return (w,)
+        if name == 'eig':
+            return (np.sort_complex(np.linalg.eigvals(A0)),)
+        return (np.linalg.svd(A0, compute_uv=False),)
+
+    @staticmethod
+    def _partial_got(name, gots):
+        if name == 'eigh':
+            return [gots[0]]
+        if name == 'eig':
+            return [np.sort_complex(np.asarray(gots[0]))]
+        return [gots[1]]
+
+    def _compare(self, ev, res):
+        a, b = ev.args[0], ev.args[1]
+        snap = {pth: (o, c) for (pth, o, c) in ev.snaps}
+
+        def z(i, v):
+            if ('a', i) in snap:
+                o, c = snap[('a', i)]
+                return c[0] if isinstance(o, UTPM) else c
+            return v
+        x0, y0 = z(0, a), z(1, b)
+        try:
+            want = bool(np.all(CMP[ev.name](x0, y0)))
+        except Exception:
+            self.ctx.skip('numpy-rejects:' + ev.name); return
+        if bool(res) != want:
+            self.ctx.violation('compare:%s' % ev.name, {'call': ev.name, 'got': bool(res), 'want': want, 'x0': np.asarray(x0).tolist(), 'y0': np.asarray(y0).tolist()}); return
+        self.ctx.ok('compare:' + ev.name, ('cmp', ev.name, want, np.shape(x0)))
